@@ -9,8 +9,8 @@ from sim.ctx import RunCtx, make_scheduler, gen_sched
 from sim import shrink as shr
 
 PROP = 'C09'
-QUICK_RUNS = 4000
-THOROUGH_RUNS = 100000
+QUICK_RUNS = 10000
+THOROUGH_RUNS = 300000
 QUICK_WALL = 110
 THOROUGH_WALL = 1500
 CHUNK = 20
